@@ -439,7 +439,8 @@ const XMLCh* DOMNodeImpl::lookupPrefix(const XMLCh* namespaceURI) const {
         return lookupPrefix(namespaceURI, (DOMElement*)thisNode);
     }
     case DOMNode::DOCUMENT_NODE:{
-        return ((DOMDocument*)thisNode)->getDocumentElement()->lookupPrefix(namespaceURI);
+        DOMElement* docElement = ((DOMDocument*)thisNode)->getDocumentElement();
+        return docElement ? docElement->lookupPrefix(namespaceURI) : 0;
     }
 
     case DOMNode::ENTITY_NODE :
@@ -577,7 +578,8 @@ const XMLCh* DOMNodeImpl::lookupNamespaceURI(const XMLCh* specifiedPrefix) const
         return 0;
     }
     case DOMNode::DOCUMENT_NODE : {
-        return((DOMDocument*)thisNode)->getDocumentElement()->lookupNamespaceURI(specifiedPrefix);
+        DOMElement* docElement = ((DOMDocument*)thisNode)->getDocumentElement();
+        return docElement ? docElement->lookupNamespaceURI(specifiedPrefix) : 0;
     }
     case DOMNode::ENTITY_NODE :
     case DOMNode::NOTATION_NODE:
@@ -1002,7 +1004,8 @@ bool DOMNodeImpl::isDefaultNamespace(const XMLCh* namespaceURI) const {
         return false;
     }
     case DOMNode::DOCUMENT_NODE:{
-        return ((DOMDocument*)thisNode)->getDocumentElement()->isDefaultNamespace(namespaceURI);
+        DOMElement* docElement = ((DOMDocument*)thisNode)->getDocumentElement();
+        return docElement ? docElement->isDefaultNamespace(namespaceURI) : false;
     }
 
     case DOMNode::ENTITY_NODE :
